@@ -1348,7 +1348,7 @@ func (w *World) sortInterfaceExempt(fn *ssa.Function) bool {
 
 // boundsRule is the rule body shared by C05.R1, C13.R1, C15.R4.
 func boundsRule(r *Run, w *World, ruleID, pkg string, scope []*ssa.Function) {
-	floors := map[string]int{"C05.R1": 18, "C13.R1": 20, "C15.R4": 3}
+	floors := map[string]int{"C05.R1": 18, "C13.R1": 20, "C15.R4": 3, "C12.R6": 10}
 	r.Rule(ruleID, "bounds and panics: every index/slice operation in scope that the compiler's prove pass cannot show in bounds is proved from dominating guards, library postconditions, induction or a checked lemma; no unchecked type assertion, division by a non-constant, nil-map write or explicit panic in scope", floors[ruleID])
 	sites, err := w.bceSites()
 	if err != nil {
